@@ -164,6 +164,83 @@ where T: Encoder<Error = Status>, U: Stream<Item = Result<T::Item, Status>>
 }
 '''
 
+TRACE = r'''
+// ---- whole-stream statement (C01, second sentence): batching / readiness independence of the encoder ----
+// Any finite history of EncodedBytes::poll_next calls - however the source's readiness interleaves with the polls, however
+// the yield threshold cuts the output into chunks - emits, chunk after chunk, exactly the wire image of the items consumed
+// so far (minus what is still buffered).  The step relation is the PROVED postcondition of the real poll_next.
+pub open spec fn emitted_of(r: Poll<Option<Result<Bytes, Status>>>) -> Seq<u8> {
+    match r { Poll::Ready(Some(Ok(b))) => b@, _ => Seq::<u8>::empty() }
+}
+pub open spec fn concat_emitted(rs: Seq<Poll<Option<Result<Bytes, Status>>>>, n: int) -> Seq<u8>
+    decreases n
+{
+    if n <= 0 || n > rs.len() { Seq::<u8>::empty() } else { concat_emitted(rs, n - 1) + emitted_of(rs[n - 1]) }
+}
+pub open spec fn enc_trace<T, U>(ss: Seq<EncodedBytes<T, U>>, rs: Seq<Poll<Option<Result<Bytes, Status>>>>) -> bool
+where T: Encoder<Error = Status>, U: Stream<Item = Result<T::Item, Status>>
+{
+    ss.len() == rs.len() + 1 && forall|i: int| 0 <= i < rs.len() ==> #[trigger] enc_step(ss[i], ss[i + 1], rs[i])
+}
+pub proof fn lemma_wire_concat<T: Encoder>(enc: Option<CompressionEncoding>, max: Option<usize>, a: Seq<Result<T::Item, Status>>, b: Seq<Result<T::Item, Status>>)
+    ensures wire_of::<T>(enc, max, a + b) == wire_of::<T>(enc, max, a) + wire_of::<T>(enc, max, b)
+    decreases b.len()
+{
+    if b.len() == 0 {
+        lemma_wire_empty::<T>(enc, max, b);
+        assert(a + b =~= a);
+        assert(wire_of::<T>(enc, max, a) + Seq::<u8>::empty() =~= wire_of::<T>(enc, max, a));
+    } else {
+        lemma_wire_concat::<T>(enc, max, a, b.drop_last());
+        assert(a + b =~= (a + b.drop_last()).push(b.last()));
+        lemma_wire_push::<T>(enc, max, a + b.drop_last(), b.last());
+        assert(b =~= b.drop_last().push(b.last()));
+        lemma_wire_push::<T>(enc, max, b.drop_last(), b.last());
+        assert((wire_of::<T>(enc, max, a) + wire_of::<T>(enc, max, b.drop_last())) + bytes_of::<T>(enc, max, b.last())
+            =~= wire_of::<T>(enc, max, a) + (wire_of::<T>(enc, max, b.drop_last()) + bytes_of::<T>(enc, max, b.last())));
+    }
+}
+pub proof fn lemma_enc_schedule_independent<T, U>(ss: Seq<EncodedBytes<T, U>>, rs: Seq<Poll<Option<Result<Bytes, Status>>>>, n: int)
+where T: Encoder<Error = Status>, U: Stream<Item = Result<T::Item, Status>>
+    requires enc_trace(ss, rs), 0 <= n <= rs.len()
+    ensures
+        ss[n].compression_encoding == ss[0].compression_encoding && ss[n].max_message_size == ss[0].max_message_size,
+        ss[0].source.log@.len() <= ss[n].source.log@.len() && ss[n].source.log@.take(ss[0].source.log@.len() as int) == ss[0].source.log@,
+        concat_emitted(rs, n) + ss[n].buf@ == ss[0].buf@ + wire_of::<T>(ss[0].compression_encoding, ss[0].max_message_size, ss[n].source.log@.skip(ss[0].source.log@.len() as int)),
+    decreases n
+{
+    let enc = ss[0].compression_encoding; let max = ss[0].max_message_size; let l0 = ss[0].source.log@.len() as int;
+    if n == 0 {
+        lemma_wire_empty::<T>(enc, max, ss[0].source.log@.skip(l0));
+        assert(ss[0].source.log@.take(l0) =~= ss[0].source.log@);
+        assert(concat_emitted(rs, 0) + ss[0].buf@ =~= ss[0].buf@ + Seq::<u8>::empty());
+    } else {
+        lemma_enc_schedule_independent(ss, rs, n - 1);
+        let i0 = n - 1;
+        assert(enc_step(ss[i0], ss[i0 + 1], rs[i0]));
+        reveal(enc_step);
+        let pre = ss[n - 1]; let post = ss[n]; let r = rs[n - 1];
+        let c = post.consumed(&pre);
+        let before = pre.source.log@.skip(l0);
+        assert(post.source.log@.skip(l0) =~= before + c);
+        assert(post.source.log@.take(l0) =~= ss[0].source.log@);
+        lemma_wire_concat::<T>(enc, max, before, c);
+        if c.len() == 0 { lemma_wire_empty::<T>(enc, max, c); }
+        if c.len() == 1 && !good::<T>(enc, max, c[0]) {
+            lemma_wire_empty::<T>(enc, max, c.drop_last()); lemma_wire_push::<T>(enc, max, c.drop_last(), c[0]); assert(c =~= c.drop_last().push(c[0]));
+        }
+        let W0 = wire_of::<T>(enc, max, before); let Wc = wire_of::<T>(enc, max, c);
+        assert(concat_emitted(rs, n) == concat_emitted(rs, n - 1) + emitted_of(r));
+        assert(concat_emitted(rs, n) + post.buf@ =~= ss[0].buf@ + (W0 + Wc)) by {
+            assert((concat_emitted(rs, n - 1) + emitted_of(r)) + post.buf@ =~= concat_emitted(rs, n - 1) + (emitted_of(r) + post.buf@));
+            assert(emitted_of(r) + post.buf@ =~= pre.buf@ + Wc);
+            assert(concat_emitted(rs, n - 1) + (pre.buf@ + Wc) =~= (concat_emitted(rs, n - 1) + pre.buf@) + Wc);
+            assert((ss[0].buf@ + W0) + Wc =~= ss[0].buf@ + (W0 + Wc));
+        }
+    }
+}
+'''
+
 BODY_SHIMS = r'''
 // http_body::Frame<Bytes>
 pub enum Frame<T> { Data(T), Trailers(HeaderMap) }
@@ -243,6 +320,7 @@ def build():
     u.item(E, 'enum', 'Role')
     u.item(E, 'struct', 'EncodeState')
     u.item(E, 'struct', 'EncodeBody', edits=[lambda t: t.sub_code('R12', r'EncodeBody<T, U>', 'EncodeBody<T, U: Stream>')])
+    u.raw(TRACE, props=['C01', 'C03'])
     u.raw(BODY_SHIMS)
     # ---- constructors: which role / compression / limit a body is built with ----
     u.item('tonic/src/codec/compression.rs', 'enum', 'SingleMessageCompressionOverride', derives='Clone, Copy, PartialEq, Eq, Structural')
